@@ -9,8 +9,10 @@ import (
 	"fmt"
 	"math/rand"
 	"os"
+	"runtime/debug"
 	"sort"
 	"strconv"
+	"strings"
 	"time"
 
 	"google.golang.org/protobuf/proto"
@@ -66,6 +68,9 @@ type cacheOp struct {
 	Dels   []pathDesc `json:"dels,omitempty"`
 	Msg    string     `json:"msg,omitempty"`
 	Q      []string   `json:"q,omitempty"`
+	// AtWalk (subscribe driver only): the writer holds this op back until a subscriber of the
+	// scenario enters its initial walk (bounded wait), so that the op lands inside the walk.
+	AtWalk bool `json:"at_walk,omitempty"`
 }
 
 type cacheScenario struct {
@@ -183,6 +188,7 @@ type cacheDrv struct {
 	now  int64
 	feed []feedEntry
 	pool pathPool
+	dead bool // the code under test panicked: locks may still be held, the scenario ends here
 }
 
 // onFeed is the SetClient callback: it projects what a consumer of the feed sees
@@ -296,7 +302,15 @@ func (d *cacheDrv) apply(o cacheOp) {
 	read := false
 	defer func() {
 		if r := recover(); r != nil {
-			d.w.Emit(trace.E{"ev": "panic", "op": o.Op, "msg": fmt.Sprint(r)})
+			site := ""
+			for _, ln := range strings.Split(string(debug.Stack()), "\n") {
+				if strings.Contains(ln, "/repo/") {
+					site = strings.TrimSpace(strings.Split(ln, " +")[0])
+					break
+				}
+			}
+			d.dead = true
+			d.w.Emit(trace.E{"ev": "panic", "op": o.Op, "msg": fmt.Sprint(r), "site": site})
 			return
 		}
 		if !read {
@@ -727,6 +741,9 @@ func cacheRandom(args []string) error {
 			sc.Ops = append(sc.Ops, o)
 			d.apply(o)
 			nops++
+			if d.dead {
+				break
+			}
 		}
 		b, _ := json.Marshal(sc)
 		sw.Write(b)
@@ -759,7 +776,9 @@ func cacheReplay(args []string) error {
 	d := &cacheDrv{w: w}
 	d.start(sc)
 	for _, o := range sc.Ops {
-		d.apply(o)
+		if d.apply(o); d.dead {
+			break
+		}
 	}
 	return w.Close()
 }
